@@ -1,5 +1,7 @@
 import SigpyVerif.Model.Py
 import SigpyVerif.Gen.AlgDone
+import SigpyVerif.Gen.C15Resid
+import SigpyVerif.Model.C13
 /-
   C15 model (core Lean only).
   * the `Alg` counter machine: `update()` = `_update()` (which itself adds `selfIncr<Cls>` to the
@@ -10,6 +12,12 @@ import SigpyVerif.Gen.AlgDone
   * `_update` of GradientMethod (± acceleration), PrimalDualHybridGradient (constant-θ branch,
     scalar step sizes), NewtonsMethod (β = 1) and PowerMethod, transcribed over a record of vector
     operations, with the residual each of them feeds to `_done` (as its square: `resid2`).
+  * `pdhgUpdateG`: PrimalDualHybridGradient with EVERY branch of the step-size block (γ_primal > 0,
+    γ_dual > 0, constant θ) and scalar OR array-valued τ/σ: C13's generic `pdStep` (which sequences the
+    `Gen.C13.*` formulas regenerated from the source) plus the residual formulas regenerated from
+    the source (`Gen.C15.pdXExtDiff / pdResidDual2 / pdResid2`, `Gen/C15Resid.lean`; the weighted norm
+    `norm(v / step**0.5)**2` is a parameter `wn`).
+  * `newtonUpdateLS`: NewtonsMethod with the backtracking line search (β < 1), the loop with fuel.
 -/
 namespace SigpyVerif.C15
 
@@ -99,6 +107,51 @@ def newtonUpdate (o : VOps V S) (rdot : V → V → S) (gradf : V → V) (invHes
   let g := gradf x                                            -- gradf_x = self.gradf(self.x)
   let p := o.smul (-1) (invHess x g)                          -- p = -self.inv_hessf(self.x)(gradf_x)
   (o.add x p, -(rdot p g))                                    -- x_new = self.x + p ; lamda2 = -real(vdot(p, gradf_x))
+
+/-! ### PrimalDualHybridGradient, every branch, scalar or array steps -/
+section pdg
+variable {S V W P D : Type} [Add S] [Sub S] [Mul S] [Div S] [Neg S] [NatCast S]
+  [Add V] [Sub V] [SMul S V] [Add W] [Sub W] [SMul S W]
+  [Neg P] [SMul P V] [SMul S P] [HDiv P S P] [Neg D] [SMul D W] [SMul S D] [HDiv D S D]
+  [LT S] [∀ a b : S, Decidable (a < b)] [DecidableEq S]
+
+/-- one `PrimalDualHybridGradient.update()`: the new state and `resid ** 2`.
+    `wnP t v` / `wnD s w` stand for `norm(v / t**0.5)**2`.  Which value of the steps each residual term
+    reads (σ before the step-size block, τ after it) is pinned by the generator (statement positions). -/
+def pdhgUpdateG (sqrt : S → S) (wnP : P → V → S) (wnD : D → W → S) (A : V → W) (AH : W → V)
+    (proxfc : D → W → W) (proxg : P → V → V) (gamma_primal gamma_dual theta0 : S)
+    (s : C13.PDState S V W P D) : C13.PDState S V W P D × S :=
+  let s' := C13.pdStep sqrt A AH proxfc proxg gamma_primal gamma_dual theta0 s
+  let x_ext_diff := Gen.C15.pdXExtDiff s.x_ext s.x
+  let rd2 := Gen.C15.pdResidDual2 wnD s'.u s.u s.sigma
+  (s', Gen.C15.pdResid2 wnP (Gen.C13.pdXDiff s'.x s.x) x_ext_diff s'.tau rd2)
+end pdg
+
+/-! ### NewtonsMethod with backtracking line search (β < 1) -/
+section newtonls
+variable {V S : Type} [Add S] [Sub S] [Mul S] [Div S] [Neg S] [OfNat S 1] [OfNat S 2]
+  [LT S] [∀ a b : S, Decidable (a < b)]
+
+/-- `while self.f(x_new) > fx - alpha / 2 * self.lamda2: alpha *= self.beta; x_new = self.x + alpha * p`
+    (with fuel; `none` = the fuel ran out).  Returns the final `alpha`, `x_new`. -/
+def newtonLoop (o : VOps V S) (f : V → S) (beta lamda2 fx : S) (x p : V) : Nat → S → V → Option (S × V)
+  | 0, _, _ => none
+  | fuel + 1, alpha, x_new =>
+    if fx - alpha / 2 * lamda2 < f x_new then
+      newtonLoop o f beta lamda2 fx x p fuel (alpha * beta) (o.add x (o.smul (alpha * beta) p))
+    else some (alpha, x_new)
+
+/-- `NewtonsMethod._update`; returns the new `x`, `lamda2` and the final `alpha` -/
+def newtonUpdateLS (o : VOps V S) (rdot : V → V → S) (gradf : V → V) (invHess : V → V → V) (f : V → S)
+    (beta : S) (fuel : Nat) (x : V) : Option (V × S × S) :=
+  let g := gradf x                                            -- gradf_x = self.gradf(self.x)
+  let p := o.smul (-1) (invHess x g)                          -- p = -self.inv_hessf(self.x)(gradf_x)
+  let lamda2 := -(rdot p g)                                   -- lamda2 = -real(vdot(p, gradf_x))
+  let x_new := o.add x p                                      -- x_new = self.x + p
+  if beta < 1 then                                            -- if self.beta < 1:
+    (newtonLoop o f beta lamda2 (f x) x p fuel 1 x_new).map fun r => (r.2, lamda2, r.1)
+  else some (x_new, lamda2, 1)
+end newtonls
 
 /-! ### PowerMethod -/
 /-- `y = A(x); max_eig = norm(y); x = y / max_eig`; returns the new `x` and `max_eig` -/
